@@ -351,6 +351,12 @@ def gen_cases(ctx, quick):
         pts = sp.anisotropic_points(r, N, D, rank, steps)
         for d in sorted({rank, min(rank + 1, N - 1)}):
             for solver in ("rand", "dense"):
+                if solver == "rand" and sum(steps) > 10:
+                    # eigenvalue ratio 4^sum(steps) times the spread ratio of the axes (up to ~10): beyond 4^10 the retained
+                    # eigenvalues can differ by more than the 10^7 the Randomized solver resolves (its relative 1e-9
+                    # dependence threshold; clean-tree alarm at VERIF_SEED=3 after the stream shifted: ratio 3.2e7, distances
+                    # off by 2^-17 relative) - that is the conditioning of the eigenproblem, not a property violation
+                    continue
                 add("anisotropic-exact-rank", "mds", solver, "pts", pts, N, D, d, False, rank)
                 add("anisotropic-exact-rank", "kpca", solver, "pts", pts, N, D, d, False, rank)
         add("anisotropic-exact-rank", "isomap", "dense", "pts", pts, N, D, rank, False, rank)
